@@ -1,6 +1,7 @@
 import Mimium.Proofs.Interner
 import Mimium.Proofs.SessionLock
 import Mimium.Gen.HashSites
+import Mimium.Gen.SharedState
 /-!
 # C19 — Concurrent compilations do not interfere
 
@@ -192,5 +193,16 @@ example :
 /-- translator fact, pinned: /repo keeps the symbol texts in the bucket backend, the one the three theorems above are
 about (with `StringBackend` the model is `Buf` and `C19_growth_invalidates_all_slices` applies instead). -/
 theorem C19_interner_backend_pinned : Mimium.Gen.internerBackend = "BucketBackend" := by decide
+
+/-- translator fact, pinned: the process-global state of lib/mimium-lang/src (every `static`, `thread_local!` item and write to
+the process environment, re-extracted on every run and compared item by item — file, name, declaration text — with the
+reviewed list tools/shared_state.json) consists of the kinds below only: the session globals and the macro file environment
+are the two pieces of shared mutable state the theorems of this file are about; the other kinds are immutable, per thread,
+a counter that only numbers things (raw id listings, class F20 of C15) or the cache of source files for diagnostics.
+A NEW static, or a thread-local turned into a static, fails the translator: the interference theorems then no longer
+cover everything compiling threads share. -/
+theorem C19_shared_state_kinds :
+    ∀ e ∈ Mimium.Gen.sharedState, e.2.2 ∈ ["session-globals", "session-globals-pointer", "macro-file-environment",
+      "per-thread-counter", "numbering-only-counter", "immutable", "diagnostic-file-cache"] := by decide
 
 end Mimium.SessionLock
